@@ -2,6 +2,7 @@
 //! `--cfg transparencies_stretto_verif`) and prints line-protocol traces for the Lean model driver.
 pub mod rng;
 pub mod tiny;
+pub mod policy;
 
 use std::io::Write;
 
